@@ -147,37 +147,31 @@ def lru_rule(ctx: Ctx) -> None:
         r.inst("LRU|unrecognised", "not decided")
         return
     r.inst("LRU.access", {"young_end": young})
-    rets = [n for n in walk_no_nested(vic.node) if isinstance(n, ast.Return)]
-    want = f"{vic.params[0]}.lru[0]" if young == "back" else f"{vic.params[0]}.lru[-1]"
-    ok = len(rets) == 1 and rets[0].value is not None and ast.unparse(rets[0].value) == want
-    r.check(ok, "LRU.get_next_to_replace", vic.loc(), f"access() keeps the youngest block at the {young} of the list, "
-            f"so the victim must be `{want}`; found `{ast.unparse(rets[0].value) if rets and rets[0].value else '?'}`")
+    from ..parsershape import normal_flow
+    vfl = normal_flow(m, vic)
+    want = "P0.lru[0]" if young == "back" else "P0.lru[USub(1)]"
+    got = [vfl.canon(x.value) for x in vfl.returns]
+    r.check(got == [want], "LRU.get_next_to_replace", vic.loc(), f"access() keeps the youngest block at the {young} of the list, "
+            f"so the victim must be `self.lru[{'0' if young == 'back' else '-1'}]`; found {[vfl.show(x.value) for x in vfl.returns]}")
     # initial order ascending: never-accessed blocks are evicted in index order
-    iv = None
-    for n in walk_no_nested(init.node):
-        if isinstance(n, ast.Assign) and isinstance(n.targets[0], ast.Attribute) and n.targets[0].attr == "lru":
-            iv = n.value
-    txt = ast.unparse(iv) if iv is not None else ""
-    asc = txt in ("[i for i in range(associativity)]", "list(range(associativity))", "[*range(associativity)]")
-    desc = txt in ("list(reversed(range(associativity)))", "list(range(associativity - 1, -1, -1))")
-    ok = asc if young == "back" else desc
-    r.check(ok, "LRU.__init__", init.loc(), f"initial order `{txt}` does not put block 0 at the victim end "
+    ifl = normal_flow(m, init)
+    iv = [ifl.canon(e.expr.value) for e in ifl.effects if e.kind == "store" and ifl.canon(e.expr.targets[0]) == "P0.lru"]  # type: ignore[attr-defined]
+    n_ = "P1"
+    asc = {f"ListComp(_c0 for _c0 in range({n_}))", f"list(range({n_}))", f"[*range({n_})]"}
+    desc = {f"list(reversed(range({n_})))", f"list(range(Sub({n_}, 1), USub(1), USub(1)))"}
+    ok = len(iv) == 1 and iv[0] in (asc if young == "back" else desc)
+    r.check(ok, "LRU.__init__", init.loc(), f"initial order {iv} does not put block 0 at the victim end "
             "(never-accessed blocks must be evicted in index order)")
     # ages: 0 = next victim
-    rets = [n for n in walk_no_nested(rep.node) if isinstance(n, ast.Return)]
-    ok = False
-    if len(rets) == 1 and isinstance(rets[0].value, ast.ListComp) and len(rets[0].value.generators) == 1:
-        lc = rets[0].value
-        g = lc.generators[0]
-        s0 = rep.params[0]
-        it_ok = ast.unparse(g.iter) in (f"range(len({s0}.lru))", f"range({s0}.associativity)")
-        v = ast.unparse(g.target)
-        elt = ast.unparse(lc.elt)
-        if young == "back":
-            ok = it_ok and elt == f"{s0}.lru.index({v})"
-        else:
-            ok = it_ok and elt in (f"len({s0}.lru) - 1 - {s0}.lru.index({v})", f"{s0}.associativity - 1 - {s0}.lru.index({v})")
-    r.check(ok, "LRU.get_repr", rep.loc(), "reported ages are not the position counted from the victim end (0 = replaced next)")
+    rfl = normal_flow(m, rep)
+    got = [rfl.canon(x.value) for x in rfl.returns]
+    its = ("range(len(P0.lru))", "range(P0.associativity)")
+    if young == "back":
+        elts = ("P0.lru.index(_c0)",)
+    else:
+        elts = ("Sub(Sub(len(P0.lru), 1), P0.lru.index(_c0))", "Sub(Sub(P0.associativity, 1), P0.lru.index(_c0))")
+    ok = len(got) == 1 and got[0] in {f"ListComp({e} for _c0 in {i})" for e in elts for i in its}
+    r.check(ok, "LRU.get_repr", rep.loc(), f"reported ages are not the position counted from the victim end (0 = replaced next): {got}")
 
 
 def _parity(e: ast.AST, var: str, p: int) -> Optional[int]:
@@ -198,112 +192,140 @@ def _parity(e: ast.AST, var: str, p: int) -> Optional[int]:
 
 
 def plru_rule(ctx: Ctx) -> None:
+    """PLRU's two walks by abstract interpretation (sa.absrun; affine forms over bit symbols, no path is
+    followed separately).  For tree depths D = 0..4 (associativity 2**D):
+
+      access(x)     x = a D-bit symbolic block index.  Every store tree_array[P] = V is recorded.  Writing
+                    c_k = bit k of x, the leaf of x is 2**D - 1 + x and its ancestor k+1 levels up is
+                    P_k = (x >> (k+1)) + 2**(D-k-1) - 1, reached from P_k through child number c_k.
+                    Required: exactly the D stores (P_k, V_k), k = 0..D-1.
+      victim()      every load tree_array[N_k] yields a fresh bit t_k.  Required: N_0 = 0 (the root),
+                    N_{k+1} = 2*N_k + 1 + o(t_k) with o = identity or negation (the same at every level),
+                    result = 2*N_{D-1} + 1 + o(t_{D-1}) - (2**D - 1)  (inverse of access()'s leaf position).
+      polarity      the bit access() stores must send the walk to the *other* child:
+                    o(V_k) = 1 - c_k.
+
+    How the walks are written (heap index, level/prefix, temporaries, conditional expressions) is irrelevant:
+    only the recorded (node, bit) pairs are compared."""
+    from ..absrun import AbsRun, is_bit
+    from ..bitslice import Form, Inconclusive
     m = ctx.model
-    r = ctx.rule("R10.plru", "PLRU: leaf offsets inverse, parent/children heap-consistent, bit points away")
+    r = ctx.rule("R10.plru", "PLRU: both walks are heap-consistent, cover every level, and the stored bit points away "
+                             "(abstract interpretation, depths 0..4)")
     c = m.cls("PLRU")
-    acc, vic = m.method(c, "access", own=True), m.method(c, "get_next_to_replace", own=True)
+    acc, vic = m.method(c, "access"), m.method(c, "get_next_to_replace")
     s0 = acc.params[0]
     idx = acc.params[1]
-    # ---- access(): i = index + assoc - 1; loop: bit = parity-test(i); i = (i-1)//2; tree[i] = bit
-    start = loop = None
-    for n in acc.node.body:
-        if isinstance(n, ast.Assign) and isinstance(n.targets[0], ast.Name) and start is None and not isinstance(n.value, ast.Constant):
-            start = n
-        if isinstance(n, ast.For):
-            loop = n
-    if start is None or loop is None:
-        ctx.notes.append("R10.plru: PLRU.access shape not recognised; not decided")
-        r.inst("PLRU|unrecognised", "not decided")
-        return
-    iv = start.targets[0].id  # type: ignore[attr-defined]
-    lf = linform(start.value)
-    r.check(lf == {idx: 1, f"{s0}.associativity": 1, "": -1}, "PLRU.access|leaf", acc.loc(start),
-            f"leaf position of block b must be b + associativity - 1 in a heap-ordered tree; found `{seg(acc, start.value)}`")
-    bit_expr = parent_expr = None
-    bit_name = None
-    store_ok = False
-    order = []
-    for n in loop.body:
-        if isinstance(n, ast.Assign) and isinstance(n.targets[0], ast.Name):
-            if n.targets[0].id == iv:
-                parent_expr = n.value
-                order.append("parent")
-            else:
-                bit_name, bit_expr = n.targets[0].id, n.value
-                order.append("bit")
-        elif isinstance(n, ast.Assign) and isinstance(n.targets[0], ast.Subscript) and self_attr(n.targets[0].value, s0, "tree_array"):
-            store_ok = ast.unparse(n.targets[0].slice) == iv and (ast.unparse(n.value) == bit_name)
-            order.append("store")
-    if bit_expr is None or parent_expr is None or order != ["bit", "parent", "store"]:
-        ctx.notes.append("R10.plru: PLRU.access loop shape not recognised; not decided")
-        r.inst("PLRU|unrecognised", "not decided")
-        return
-    r.check(store_ok, "PLRU.access|store", acc.loc(loop), "the direction bit is not stored at the parent node")
-    exits = [n for n in ast.walk(loop) if isinstance(n, (ast.Break, ast.Continue, ast.Return, ast.If))]
-    r.check(not exits, "PLRU.access|every-level", acc.loc(exits[0]) if exits else acc.loc(loop),
-            "the walk from the leaf to the root is conditional / can stop early: an access must set *every* bit on its path")
-    r.check(ast.unparse(parent_expr) == f"({iv} - 1) // 2", "PLRU.access|parent", acc.loc(loop),
-            f"parent of node i must be (i - 1) // 2; found `{ast.unparse(parent_expr)}`")
-    r.check(ast.unparse(loop.iter) == f"range({s0}.tree_depth)", "PLRU.access|depth", acc.loc(loop),
-            "access() does not walk tree_depth levels")
-
-    def acc_bit(par: int) -> Optional[bool]:
-        e = bit_expr
-        if isinstance(e, ast.Compare) and len(e.ops) == 1 and isinstance(e.ops[0], (ast.Eq, ast.NotEq)) \
-                and isinstance(e.left, ast.BinOp) and isinstance(e.left.op, ast.Mod) and ast.unparse(e.left.right) == "2" \
-                and isinstance(e.comparators[0], ast.Constant):
-            q = _parity(e.left.left, iv, par)
-            if q is None:
-                return None
-            res = q == e.comparators[0].value
-            return res if isinstance(e.ops[0], ast.Eq) else not res
-        return None
-
-    # ---- victim walk
-    vloop = next((n for n in vic.node.body if isinstance(n, ast.For)), None)
-    rets = [n for n in walk_no_nested(vic.node) if isinstance(n, ast.Return)]
-    if vloop is None or len(rets) != 1 or not (len(vloop.body) == 1 and isinstance(vloop.body[0], ast.If)):
-        ctx.notes.append("R10.plru: PLRU.get_next_to_replace shape not recognised; not decided")
-        r.inst("PLRU|unrecognised", "not decided")
-        return
-    iff = vloop.body[0]
     s1 = vic.params[0]
-    jv = None
-    child = {}
-    for pol, blk in ((True, iff.body), (False, iff.orelse)):
-        if len(blk) == 1 and isinstance(blk[0], ast.Assign) and isinstance(blk[0].targets[0], ast.Name):
-            jv = blk[0].targets[0].id
-            child[pol] = blk[0].value
-    test_ok = jv is not None and ast.unparse(iff.test) == f"{s1}.tree_array[{jv}]"
-    if not test_ok or len(child) != 2:
-        ctx.notes.append("R10.plru: victim walk shape not recognised; not decided")
-        r.inst("PLRU|unrecognised", "not decided")
-        return
-    forms = {pol: linform(e) for pol, e in child.items()}
-    kids = [{jv: 2, "": 1}, {jv: 2, "": 2}]
-    r.check(all(fm in kids for fm in forms.values()) and forms[True] != forms[False], "PLRU.victim|children", vic.loc(vloop),
-            f"children of node i must be 2i+1 and 2i+2; found `{ast.unparse(child[True])}` / `{ast.unparse(child[False])}`")
-    r.check(ast.unparse(vloop.iter) == f"range({s1}.tree_depth)", "PLRU.victim|depth", vic.loc(vloop),
-            "victim walk does not descend tree_depth levels")
-    lfr = linform(rets[0].value) if rets[0].value is not None else None
-    r.check(lfr == {jv: 1, "": 1, f"{s1}.associativity": -1}, "PLRU.victim|leaf", vic.loc(rets[0]),
-            f"leaf i denotes block i + 1 - associativity (inverse of access()'s leaf position); found "
-            f"`{ast.unparse(rets[0].value) if rets[0].value else '?'}`")
-    # ---- polarity: the bit written for an accessed child of parity p sends the walk to the other parity
-    for par, nm in ((1, "odd (left) child"), (0, "even (right) child")):
-        b = acc_bit(par)
-        if b is None:
-            ctx.notes.append("R10.plru: direction-bit expression outside the parity domain; polarity not decided")
-            r.inst("PLRU|polarity-unrecognised", "not decided")
+    one = Form.k(1)
+    for D in range(0, 5):
+        A = 1 << D
+        consts0 = {f"{s0}.associativity": A, f"{s0}.tree_depth": D}
+        consts1 = {f"{s1}.associativity": A, f"{s1}.tree_depth": D}
+        x = Form.field("x", 0, D) if D else Form.k(0)
+        # ---------------------------------------------------------------- access
+        stores: list = []
+
+        def on_store(t, v, ev, _stores=stores, _s0=s0):
+            if isinstance(t, ast.Subscript) and ast.unparse(t.value) == f"{_s0}.tree_array":
+                _stores.append((ev.ev(t.slice), v, t, list(ev.run.guards)))
+                return True
+            return False
+
+        def on_load_acc(e, ev, _s0=s0):
+            if isinstance(e, ast.Subscript) and ast.unparse(e.value) == f"{_s0}.tree_array":
+                ev.ev(e.slice)
+                return Form.field(f"s{getattr(e, 'lineno', 0)}_{getattr(e, 'col_offset', 0)}", 0, 1)
+            return None
+
+        try:
+            AbsRun(m, acc, {idx: x}, consts0, on_store=on_store, on_load=on_load_acc).run()
+        except Inconclusive as exc:
+            if "non-constant branch" in str(exc) or "branch on a non-constant" in str(exc):
+                r.check(False, f"PLRU.access|D={D}|every-level", acc.loc(),
+                        f"access() is conditional on the tree's current bits ({exc}): an access must set *every* bit on its path, "
+                        "whatever the tree held before")
+                continue
+            raise AnalysisError(f"R10.plru: PLRU.access is outside the abstract interpreter (depth {D}): {exc}")
+        want = {}
+        for k in range(D):
+            P = (Form.field("x", k + 1, D) if k + 1 < D else Form.k(0)) + Form.k((1 << (D - k - 1)) - 1)
+            want[P.describe()] = (P, Form.field("x", k, k + 1))  # node -> child number c_k
+        got = {}
+        guarded = [(P, t, g) for P, V, t, g in stores if g]
+        if guarded:
+            P, t, g = guarded[0]
+            r.check(False, f"PLRU.access|D={D}|every-level", acc.loc(t),
+                    f"with associativity {A}, access() sets the bit at node {P.describe()} only when `{' and '.join(g)}`: the walk from the "
+                    "leaf to the root is conditional / can stop early, but an access must set *every* bit on its path")
             continue
-        chosen = child[b]
-        q = _parity(chosen, jv, 0)  # 2*i is even whatever i is
-        r.check(q is not None and q != par, f"PLRU|polarity-{'odd' if par else 'even'}", vic.loc(vloop),
-                f"accessing the {nm} stores bit {b}, and the victim walk then goes to `{ast.unparse(chosen)}` -- the same "
-                "side: PLRU would evict the block that was just used", {"accessed_parity": par, "bit": b, "victim_child": ast.unparse(chosen)})
+        stores = [(P, V, t) for P, V, t, g in stores]
+        for P, V, t in stores:
+            got.setdefault(P.describe(), []).append((P, V, t))
+        key = f"PLRU.access|D={D}"
+        ok = set(got) == set(want) and all(len(v) == 1 for v in got.values())
+        r.check(ok, f"{key}|nodes", acc.loc(stores[0][2]) if stores else acc.loc(),
+                f"with associativity {A}, access(x) must set exactly the bits at the {D} ancestors of leaf x + {A - 1} "
+                f"(nodes {sorted(want)}); it stores at {sorted(got)}")
+        if not ok:
+            continue
+        # ---------------------------------------------------------------- victim
+        loads: list = []
+
+        def on_load(e, ev, _loads=loads, _s1=s1):
+            if isinstance(e, ast.Subscript) and ast.unparse(e.value) == f"{_s1}.tree_array":
+                n = ev.ev(e.slice)
+                t = Form.field(f"t{len(_loads)}", 0, 1)
+                _loads.append((n, t, e))
+                return t
+            return None
+
+        try:
+            res = AbsRun(m, vic, {}, consts1, on_load=on_load).run()
+        except Inconclusive as exc:
+            raise AnalysisError(f"R10.plru: PLRU.get_next_to_replace is outside the abstract interpreter (depth {D}): {exc}")
+        key = f"PLRU.victim|D={D}"
+        okv = len(loads) == D and res is not None
+        orient = None  # 'same': bit 1 -> child 2N+2 ; 'neg': bit 1 -> child 2N+1
+        detail = ""
+        if okv:
+            nxt = [n for n, _, _ in loads[1:]] + [res + Form.k(A - 1)]
+            if D and not (loads[0][0] == Form.k(0)):
+                okv, detail = False, f"the walk starts at node {loads[0][0].describe()}, not at the root 0"
+            for k in range(D):
+                if not okv:
+                    break
+                n, t, _ = loads[k]
+                d = nxt[k] - n.scale(2) - one
+                o = "same" if d == t else "neg" if d == one - t else None
+                if o is None or (orient is not None and o != orient):
+                    okv = False
+                    detail = (f"after reading the bit at node {n.describe()} the walk continues at {nxt[k].describe()}"
+                              f"{' (as a block number: minus ' + str(A - 1) + ')' if k == D - 1 else ''}; a heap-ordered tree requires 2*node + 1 + bit"
+                              " (or the mirrored orientation at every level)")
+                orient = orient or o
+        r.check(okv, key, vic.loc(loads[0][2]) if loads else vic.loc(),
+                f"with associativity {A}, the victim walk must read one bit per level from the root downwards and return the leaf it "
+                f"reaches minus {A - 1}: {detail or str(len(loads)) + ' bits read, result ' + (res.describe() if res is not None else 'None')}")
+        if not okv or D == 0:
+            continue
+        # ---------------------------------------------------------------- polarity
+        for P, V, t in stores:
+            ck = want[P.describe()][1]
+            ov = V if orient == "same" else one - V
+            r.check(is_bit(V) and ov == one - ck, f"PLRU|polarity|D={D}|node={P.describe()}", acc.loc(t),
+                    f"with associativity {A}: accessing block x reaches node {P.describe()} through child number {ck.describe()} and stores "
+                    f"{V.describe()} there; the victim walk then continues to child number {(ov).describe()} -- it must be the other one "
+                    f"(1 - {ck.describe()}), or PLRU evicts on the side that was just used")
     # tree size / depth
-    init = m.method(c, "__init__", own=True)
-    txt = " ".join(ast.unparse(init.node).split())
-    r.check("[False] * (associativity - 1)" in txt, "PLRU.__init__|tree", init.loc(), "tree_array is not associativity-1 cleared bits")
-    r.check("int(math.log2(self.associativity))" in txt or "int(math.log2(associativity))" in txt or "associativity.bit_length() - 1" in txt,
-            "PLRU.__init__|depth", init.loc(), "tree_depth is not log2(associativity)")
+    from ..parsershape import normal_flow
+    init = m.method(c, "__init__")
+    ifl = normal_flow(m, init)
+    st = {ifl.canon(e.expr.targets[0]): ifl.canon(e.expr.value) for e in ifl.effects if e.kind == "store"}  # type: ignore[attr-defined]
+    r.check(st.get("P0.tree_array") in ("Mult(Sub(P1, 1), [False])", "Mult(Sub(P0.associativity, 1), [False])",
+                                        "ListComp(False for _c0 in range(Sub(P1, 1)))", "ListComp(False for _c0 in range(Sub(P0.associativity, 1)))"),
+            "PLRU.__init__|tree", init.loc(), f"tree_array is not associativity-1 cleared bits: {st.get('P0.tree_array')}")
+    r.check(st.get("P0.tree_depth") in ("int(math.log2(P0.associativity))", "int(math.log2(P1))", "Sub(P1.bit_length(), 1)", "Sub(P0.associativity.bit_length(), 1)"),
+            "PLRU.__init__|depth", init.loc(), f"tree_depth is not log2(associativity): {st.get('P0.tree_depth')}")
+
+
